@@ -22,6 +22,9 @@ def S(name, quick, thorough, **kw):
 
 PROPS = {
     'C01': dict(modules=['NutsProofs.Props.C01'], suites=[S('db-kv', (60, 150), (1500, 200)), S('db-kvbig', (30, 200), (600, 300))]),
+    'C02': dict(modules=['NutsProofs.Props.C02'], suites=[S('db-sparse', (80, 150), (2000, 200))],
+                assumptions=['the on-disk node files (.bptidx: data offsets as keys) are abstracted to the content of the tree they were written from; validated by the correspondence only',
+                             'key/value operations only (list/set/sorted-set are not supported by the library in this mode)']),
     'C03': dict(modules=['NutsProofs.Props.C03'], suites=[S('db-kv', (60, 150), (1500, 200)), S('db-kvbig', (40, 200), (800, 300))]),
     'C04': dict(modules=['NutsProofs.Props.C04'], suites=[S('db-iso', (60, 150), (1500, 200))]),
     'C05': dict(modules=['NutsProofs.Props.C05'],
@@ -38,7 +41,9 @@ PROPS = {
     'C14': dict(modules=['NutsProofs.Props.C14'], suites=[],
                 conc=[dict(name='kv', quick='-profile kv -workers 8 -txs 25 -dbs 2 -mode 0', thorough='-profile kv -workers 16 -txs 60 -dbs 3 -mode 0', rounds=dict(quick=1, thorough=6)),
                       dict(name='kv-keyonly', quick='-profile kv -workers 8 -txs 25 -dbs 2 -mode 1', thorough='-profile kv -workers 16 -txs 60 -dbs 3 -mode 1', rounds=dict(quick=1, thorough=6)),
-                      dict(name='structs', quick='-profile structs -workers 8 -txs 25 -dbs 2 -mode 0', thorough='-profile structs -workers 16 -txs 60 -dbs 3 -mode 0', rounds=dict(quick=1, thorough=6)),
+                      dict(name='structs', quick='-profile structs -workers 8 -txs 25 -dbs 2 -mode 0', thorough='-profile structs -workers 16 -txs 60 -dbs 3 -mode 0', rounds=dict(quick=1, thorough=6),
+                           # SMove* mutate the committed set index while holding only the read lock (finding D-SMOVE, predicted by the effect facts)
+                           known_races=[('D-SMOVE', r'SMoveBy(One|Two)Bucket')]),
                       dict(name='sparse-raceonly', quick='-profile kv -workers 6 -txs 20 -dbs 2 -mode 2', thorough='-profile kv -workers 12 -txs 50 -dbs 3 -mode 2', raceonly=True,
                            rounds=dict(quick=1, thorough=3),
                            known_races=[('D-SORTFID', r'SortFID|BPTreeRootIdxWrapper'), ('D-QUEUE', r'WriteNodes|enqueue|dequeue')])],
@@ -48,7 +53,7 @@ PROPS = {
                 conc=[dict(name='merge', quick='-profile mergekv -workers 6 -txs 30 -merge -mode 0', thorough='-profile mergekv -workers 12 -txs 60 -merge -mode 0', rounds=dict(quick=1, thorough=5),
                            known_races=[('D-MERGE-NOLOCK', r'\(\*DB\)\.Merge|reWriteData|getPendingMergeEntries|getRecordFromKey')])],
                 assumptions=['the property is false of the code (finding D-MERGE-NOLOCK): the check reports every race and every divergence that is not explained by the unlocked Merge']),
-    'C18': dict(modules=['NutsProofs.Props.C18'], suites=[S('db-kv', (10, 100), (100, 150))],
+    'C18': dict(modules=['NutsProofs.Props.C18'], suites=[S('db-merge', (40, 150), (800, 200)), S('db-mixed', (30, 150), (600, 200)), S('db-kv', (20, 150), (400, 200))],
                 conc=[dict(name='backup', quick='-profile backup -workers 6 -txs 30 -backup -mode 0', thorough='-profile backup -workers 12 -txs 60 -backup -mode 0', rounds=dict(quick=2, thorough=8)),
                       dict(name='backup-keyonly', quick='-profile backup -workers 6 -txs 30 -backup -mode 1', thorough='-profile backup -workers 12 -txs 60 -backup -mode 1', rounds=dict(quick=1, thorough=4))],
                 assumptions=['coherence of file reads with a shared mapping (MMap mode) is OS behaviour outside the model']),
